@@ -205,10 +205,11 @@ impl Conn {
         while let Some((_, msg)) = self.responses.verif_try_next() { if first.is_none() { first = Some(msg); } }
         (first, r.is_err())
     }
-    fn token(&self, t: Tok, forged: &NodeId) -> NodeId {
+    fn token(&self, t: Tok, forged: &(NodeId, NodeId)) -> NodeId {
         match t {
             Tok::T(i) if i >= 1 && (i as usize) <= self.issued.len() => self.issued[i as usize - 1].1.clone(),
-            Tok::T(_) | Tok::Forged => forged.clone(),
+            Tok::T(_) => forged.1.clone(),
+            Tok::Forged => forged.0.clone(),
             Tok::Null => NodeId::null(),
         }
     }
@@ -252,7 +253,30 @@ fn exec_ops(ops: &[Op]) -> Vec<i128> {
         let handler = VerifMessageHandler::new(channel.clone(), w.certificate_store.clone(), w.server_state.clone(), sessions.clone(), w.address_space.clone());
         let (sender, responses) = MessageSender::verif_in_memory();
         let mut c = Conn { handler, sender, responses, channel, sessions, issued: Vec::new(), var: var.clone(), req_id: 0 };
-        let forged = NodeId::new(0, ByteString::from(vec![0xEEu8; 32]));
+        // "Forged" is the token of an activated session of ANOTHER connection of the same server
+        // (its own SessionManager and secure channel); tokens not yet issued are random bytes
+        let (foreign, _other) = {
+            let channel = Arc::new(RwLock::new(SecureChannel::new(w.certificate_store.clone(), Role::Server, { let s = w.server_state.read(); let c = s.config.read(); c.decoding_options() })));
+            channel.write().set_secure_channel_id(1);
+            let sessions = Arc::new(RwLock::new(SessionManager::default()));
+            let handler = VerifMessageHandler::new(channel.clone(), w.certificate_store.clone(), w.server_state.clone(), sessions.clone(), w.address_space.clone());
+            let (sender, responses) = MessageSender::verif_in_memory();
+            let mut o = Conn { handler, sender, responses, channel, sessions, issued: Vec::new(), var: var.clone(), req_id: 0 };
+            let req = CreateSessionRequest {
+                request_header: hdr(&NodeId::null()), client_description: ApplicationDescription::default(), server_uri: UAString::null(),
+                endpoint_url: UAString::from(ENDPOINT), session_name: UAString::from("other"), client_nonce: ByteString::null(),
+                client_certificate: ByteString::null(), requested_session_timeout: 60000.0, max_response_message_size: 0,
+            };
+            let tok = match o.send(req.into()).0 { Some(SupportedMessage::CreateSessionResponse(r)) => r.authentication_token.clone(), _ => panic!("foreign session") };
+            let act = ActivateSessionRequest {
+                request_header: hdr(&tok), client_signature: SignatureData::null(), client_software_certificates: None, locale_ids: None,
+                user_identity_token: identity(0), user_token_signature: SignatureData::null(),
+            };
+            match o.send(act.into()).0 { Some(SupportedMessage::ActivateSessionResponse(_)) => {}, _ => panic!("foreign activate") }
+            (tok, o)
+        };
+        let unissued = NodeId::new(0, ByteString::from(vec![0xEEu8; 32]));
+        let forged = (foreign, unissued);
         let mut out = Vec::new();
         for op in ops {
             let class = match op {
@@ -309,6 +333,7 @@ fn exec_ops(ops: &[Op]) -> Vec<i128> {
         }
         // leave nothing of this case behind in the shared address space
         { let sm = c.sessions.clone(); sm.write().clear(w.address_space.clone()); }
+        { let sm = _other.sessions.clone(); sm.write().clear(w.address_space.clone()); }
         { w.address_space.write().delete(&var, true); }
         out
     })
